@@ -319,9 +319,30 @@ def run_table_session(args):
 
     u = T.generate(seed, "forest" if fl == "forest" else "base")
     start, pack = T.realise(u, seed)
-    s = Session(start, pack, flavour=fl, schedule=sc.SCHEDULES[sch], reverse=u["reverse"] if fl == "forest" else True, record=("queue",))
+    import signal
+
+    class _Late(BaseException):
+        pass
+
+    def _late(*a):
+        raise _Late()
+
     table = {k: v for k, v in u.items() if not k.startswith("_")}
-    outcome, _, events = _recorded_loop(s, fl, universe=table)
+    # a time budget per session (like the packet budget: exceeding it is never a verdict, the universe is reported as skipped)
+    old_handler = signal.signal(signal.SIGALRM, _late)
+    signal.alarm(int(__import__("os").environ.get("G_ALARM", "90")))
+    try:
+        s = Session(start, pack, flavour=fl, schedule=sc.SCHEDULES[sch], reverse=u["reverse"] if fl == "forest" else True, record=("queue",))
+        outcome, _, events = _recorded_loop(s, fl, universe=table)
+    except _Late:
+        import sys
+        import traceback
+
+        traceback.print_exc(file=sys.stderr)
+        outcome, events = "time-budget", []
+    finally:
+        signal.alarm(0)
+        signal.signal(signal.SIGALRM, old_handler)
     # the table re-read from the pack (what extract() does for the word universe) must be the generated one: fixture self-check
     return {"tid": "G|%d|%s|%s" % (seed, fl, sch), "universe": table, "events": events, "outcome": outcome if isinstance(outcome, str) else str(outcome),
             "sig": "universe=G/flavour=%s" % fl}
@@ -354,6 +375,9 @@ def table_campaign(run, tier, seed, n=None, want_mc=True):
             run.nt("loop-G:" + job["tid"])
         for r in v.rejects:
             rejected.append((job, r))
+    skipped = [j["tid"] for j in jobs if j["outcome"] == "time-budget"]
+    if skipped:
+        run.extra["generated_universes_skipped_for_time"] = skipped
     run.tlc_runs.append({"run": "Trace_SearchLoop: %d recorded searches over generated table universes (universe G) validated step by step against Search.tla" % len(jobs),
                          "accepted": sum(v.accepted for v in verdicts), "traces": len(jobs)})
     nmc = 0
